@@ -717,6 +717,12 @@ func (c *Contracts) ParseContractText(text, file, pkgPath string) error {
 				return errf("%v", err)
 			}
 			c.DInvs = append(c.DInvs, &DataInv{Type: f[0], Var: f[1], Src: rest, E: e, Pkg: pkgPath, Line: rc.line, File: file})
+			// the invariant is also available as the spec function inv<Type>(x)
+			nm := "inv" + strings.ReplaceAll(f[0], ".", "")
+			if _, dup := c.Specs[nm]; !dup {
+				c.Specs[nm] = &SpecFunc{Name: nm, Params: []Param{{f[1], "*" + f[0]}}, Result: "bool", BodySrc: strings.TrimSpace(rest[k+2:]), Body: e, Pkg: pkgPath, Line: rc.line, File: file}
+				c.SpecOrd = append(c.SpecOrd, nm)
+			}
 			cur, curLemma = nil, nil
 		case "globalinv":
 			e, err := parseExpr(rest)
